@@ -601,6 +601,43 @@ func genControl(p *params, prop string, emit func(string, bool)) {
 					(kind == "LK" || kind == "AK" || kind == "ST")
 			})
 		}
+		// a hook that fails, and whose consumer loses its role DURING the error back-off: the process goes back to asking for its
+		// role (it does not end), the event is delivered again and the hook is re-invoked until it returns nil
+		if prop == "C14" {
+			ph := mkProg("ctl-hook-backoff-lose", "S:1:R,1,2:2:0:0:0 C:2:R,1,3:3 S:3:R,1,4:4:0:0:0 H:3:2 H:5:1 D:1 O:retry=-1,bo=50")
+			for _, when := range []int{0, 1, 2} {
+				h := []string{"tr:1:0:4"}
+				h = append(h, ph.rounds(2)...)
+				h = append(h, "ct:1:0")
+				for k := 0; k < 4; k++ {
+					if k == when {
+						h = append(h, "lose:1/h3")
+					}
+					h = append(h, ph.rounds(1)...)
+				}
+				h = append(h, adv(60))
+				h = append(h, ph.rounds(3)...)
+				h = append(h, adv(60))
+				h = append(h, ph.rounds(3)...)
+				h = append(h, "ct:1:1", "cb:1:2")
+				h = append(h, ph.rounds(3)...)
+				h = append(h, adv(60))
+				h = append(h, ph.rounds(4)...)
+				emit(scenario(ph, h), true)
+			}
+		}
+		// steps under an error count of 1 whose functions SUCCEED, with every single fault at the calls of the step consumers: a
+		// transition that was committed although its Store returned an error is not an error of the step function — nothing may
+		// be written on top of it from the record as it was before the step ran (no pause of a run that has moved on / completed)
+		if pr.name == "ctl-stepctl" {
+			pu := mkProg("ctl-step-count-updater-fault", "S:1:R,1,2:2:0:1:0 S:2:R,1,3:3:0:1:0 H:3:0 H:5:0 D:1 O:retry=-1,stamp=1")
+			h := []string{"tr:1:0:4", "tr:2:0:7"}
+			h = append(h, pu.rounds(5)...)
+			rec := pu.rounds(4)
+			singleFaultsAt(pu, h, rec, emit, func(op, kind string) bool {
+				return strings.HasPrefix(op, "st:") && (strings.Contains(op, "/s1.") || strings.Contains(op, "/s2.")) && (kind == "ST" || kind == "LK")
+			})
+		}
 		// a step that pauses / cancels its own run under an error count, with every single fault at the controller's write: a
 		// write that took effect although its call returned an error leaves the run stopped — the error-count pause that the
 		// returned error then triggers must not write over it
